@@ -155,7 +155,11 @@ func writeObject(w io.Writer, value any) error {
 		}
 		return nil
 	case reflect.Ptr:
-		return writeObject(w, reflect.ValueOf(value).Elem())
+		// a pointer prints as what it points to; a nil pointer prints nothing
+		if rv := reflect.ValueOf(value); !rv.IsNil() {
+			return writeObject(w, rv.Elem().Interface())
+		}
+		return nil
 	default:
 		_, err := io.WriteString(w, fmt.Sprint(value))
 		return err
